@@ -3,8 +3,8 @@
    An interleaving is any list of events (subroutines issuing create/receive requests and
    then blocking in waits, responses arriving, the back end retrying the pending list,
    polls of waiting subroutines, qfree/qalloc); `run` stops at the first fault, so
-   `run ... = Some s` is a fault-free run: this is where the environment contract
-   issuer_alive enters (a response handled after its issuing subroutine ended faults). *)
+   `run ... = Some s` is a fault-free run (faults: malformed programs -- virtual ids out of
+   range, result arrays too short, an application stopped with requests outstanding). *)
 From Coq Require Import ZArith List Bool Permutation.
 From NQ Require Import Exec.Qmem Exec.Epr Proofs.EprProofs.
 Import ListNotations.
@@ -165,22 +165,17 @@ Example C12_refusal_nonvacuous :
   end.
 Proof. vm_compute. repeat split; reflexivity. Qed.
 
-(* the contract is needed (witnesses replayed on the implementation by the check) *)
-Definition C12_no_fault_unrestricted : Prop :=
-  forall nd es s r, run (init_state nd) es = Some s -> snd (step s (Resp r)) <> Some EUnknownSub.
+(* the issuing subroutine need not be alive when its responses are handled (repaired: the
+   request carries its application); the former hypothesis issuer_alive is gone *)
+Theorem C12_issuer_may_have_ended :
+  exists s s', run (init_state 0) [Init 0 2; Create 0 (1, 0) true [0] 1 0 1 2 []] = Some s /\
+               List.length (reqs s) = 1%nat /\ subs s = [] /\
+               step s (Resp (demo_resp true 0 1 101)) = (s', None) /\
+               reqs s' = [] /\ pend s' = [] /\ log s' = [(0, 0, 0)%nat] /\ ums s' = [(0, [Some 101; None])] /\
+               option_map (fun l => nth_error l 2) (aget pair_eqb (0, 2) (arrs s')) = Some (Some (Some 101)).
+Proof. exact issuer_may_have_ended. Qed.
 
-Theorem C12_issuer_dead_refuted :
-  exists s r, run (init_state 0) [Init 0 2; Create 0 (1, 0) true [0] 1 0 1 2 []] = Some s /\
-              List.length (reqs s) = 1%nat /\ subs s = [] /\
-              step s (Resp r) = (arrive s r, Some EUnknownSub).
-Proof. exact issuer_dead_refuted. Qed.
-
-Theorem C12_unrestricted_refuted : ~ C12_no_fault_unrestricted.
-Proof.
-  intros H. destruct issuer_dead_refuted as (s & r & R & _ & _ & E).
-  apply (H 0 _ s r R). rewrite E. reflexivity.
-Qed.
-
+(* the remaining contract (iii) is needed (witness replayed on the implementation by the check) *)
 Theorem C12_type_mismatch_refuted :
   exists s, run (init_state 0) [Init 0 2; Create 0 (1, 0) true [0] 1 0 1 2 [WAll 2 0 10]; Resp (demo_resp false 0 1 1)] = Some s /\
             log s = [(0, 0, 0)%nat] /\ reqs s = [] /\ ums s = [(0, [None; None])].
@@ -222,6 +217,5 @@ Print Assumptions C12_put_fault_leaves_queues_unchanged.
 Print Assumptions C12_retry_after_refusal_is_head.
 Print Assumptions C12_lifecycle_leaves_bookkeeping_unchanged.
 Print Assumptions C12_stop_leaves_other_apps.
-Print Assumptions C12_issuer_dead_refuted.
-Print Assumptions C12_unrestricted_refuted.
+Print Assumptions C12_issuer_may_have_ended.
 Print Assumptions C12_type_mismatch_refuted.
